@@ -679,6 +679,19 @@ def _abort_clauses(hist, sr, prop, t_trig, trig_seq, label, exact, out):
     # (iii) end of the run
     if sr.over is None:
         return
+    # ... which waits for the cancellations to complete, also those a
+    # cancelled nested scheduler relays to its own jobs
+    for mh in sr.mh:
+        if not mh.is_sched or not mh.enters:
+            continue
+        for nid in hist.subtree_ids(mh.nid):
+            if nid != mh.nid and hist.nodes[nid].active_at(sr.over[0]):
+                out.append(Violation(
+                    prop, 'job-left-running', site + '-below-nested',
+                    "{} (below nested {} of {}) still active when the run "
+                    "ended at t={} ({} at t={})".format(
+                        nid, mh.nid, sid, sr.over[1], label, t_trig)))
+                break
     sd_begin = [e for e in sr.h.sdrun_begin if e[0] < sr.over[0]]
     if not sd_begin:
         return                              # C13 reports a missing shutdown
@@ -773,6 +786,12 @@ def c08(hist, stats=None):
     run = hist.run
     for sid in hist.sched_ids():
         sr = hist.sr(sid)
+        if sr.begin is not None and sr.timeout is None and \
+                sr.verdict == 'fail' and sr.cause == 'timeout':
+            out.append(Violation(
+                'C08', 'timeout-verdict-without-expiry', _site(sr),
+                "{} has no timeout but reports one (why()={!r})".format(
+                    sid, sr.why)))
         if sr.timeout is None or sr.begin is None:
             continue
         if sr.exp_t not in (None, INF) and hist.instants[-1] > sr.exp_t \
@@ -799,6 +818,15 @@ def c08(hist, stats=None):
                 if hist.parents[sid] is not None:
                     stats['nested_timeouts_fired'] = \
                         stats.get('nested_timeouts_fired', 0) + 1
+        # the timeout verdict is given only when the timeout did expire
+        if sr.verdict == 'fail' and sr.cause == 'timeout' and \
+                sr.over is not None and (sr.exp_t in (None, INF)
+                                         or sr.over[1] < sr.exp_t):
+            out.append(Violation(
+                'C08', 'timeout-verdict-without-expiry', _site(sr),
+                "{} reports a timeout (why()={!r}) but was over at t={} and "
+                "its timeout {!r} expires at t={}".format(
+                    sid, sr.why, sr.over[1], sr.timeout, sr.exp_t)))
         # a scheduler holding forever jobs only: there is no "last regular
         # job", but the timeout clause still applies - if no job at all has
         # ended by the expiry the run is not over, so it must time out
